@@ -223,7 +223,7 @@ func TestC43KeepAlive(t *testing.T) {
 		lats := make([]lat, rounds)
 		failRound := -1
 		for i := range lats {
-			k := rapid.SampledFrom([]string{"prompt", "prompt", "just-in-time", "just-late", "never", "wrong-id"}).Draw(t, "lat")
+			k := rapid.SampledFrom([]string{"prompt", "prompt", "just-in-time", "just-late", "never", "wrong-id", "stalled-write"}).Draw(t, "lat")
 			l := lat{kind: k}
 			switch k {
 			case "prompt":
@@ -234,7 +234,7 @@ func TestC43KeepAlive(t *testing.T) {
 				l.d = timeout + time.Millisecond
 			}
 			lats[i] = l
-			if failRound < 0 && (k == "just-late" || k == "never" || k == "wrong-id") {
+			if failRound < 0 && (k == "just-late" || k == "never" || k == "wrong-id" || k == "stalled-write") {
 				failRound = i
 			}
 		}
@@ -244,6 +244,24 @@ func TestC43KeepAlive(t *testing.T) {
 			defer f.stop(t)
 			seen := 0
 			for r := 0; r < rounds; r++ {
+				if lats[r].kind == "stalled-write" && r == failRound {
+					// the link is half open: the peer stops reading, so the keep-alive ping
+					// cannot even be written; no pong can come, and the loop must end the
+					// connection within the ping timeout all the same
+					f.peer.StallReads()
+					tick := time.Duration(r+1) * interval
+					time.Sleep(tick + timeout - time.Since(f.t0))
+					synctest.Wait()
+					alive, err := f.running()
+					if alive {
+						t.Fatalf("keep-alive ping %d (due at %v) could not be written (peer not reading) and no pong came within %v, but Conn.Run is still running at %v", r, tick, timeout, time.Since(f.t0))
+					}
+					if err == nil {
+						t.Fatalf("Conn.Run returned nil after a missed pong")
+					}
+					f.peer.ResumeReads()
+					return
+				}
 				// wait for the r-th keep-alive ping
 				time.Sleep(time.Duration(r+1)*interval - time.Since(f.t0))
 				synctest.Wait()
@@ -297,7 +315,7 @@ func TestC43KeepAlive(t *testing.T) {
 		key := fmt.Sprintf("seed=%d i=%v t=%v lats=%v", seed, interval, timeout, lats)
 		nontrivial := false
 		for _, l := range lats {
-			if l.kind == "just-in-time" || l.kind == "just-late" || l.kind == "wrong-id" {
+			if l.kind == "just-in-time" || l.kind == "just-late" || l.kind == "wrong-id" || l.kind == "stalled-write" {
 				nontrivial = true
 			}
 		}
